@@ -270,10 +270,10 @@ PROPS = {
     ),
     "C04": dict(
         lean_modules=['Swim.Model.Acks', 'Swim.Lemmas.Merge', 'Swim.Props.C19', 'Swim.Props.C18', 'Swim.Props.C04', 'Swim.Model.Cluster', 'Swim.Props.Cluster', 'Swim.Props.C04Cluster'],
-        tests="^TestC04$",
+        tests="^TestC04(Cluster)?$",
         timeout_quick=400,
         shards_quick=4,
-        rule='healthy clusters of 3-10 nodes in virtual time: every packet delivered within half the probe timeout (a third of the runs with every packet exactly at the bound), staggered joins, UpdateNode, graceful leaves (the leaver keeps running), user messages, IndirectChecks 0/1/3, TCP pings on/off; a wire tap looks for suspect messages, every node is polled for health score, suspect/dead records, leave events of live members, conflicts, callback overlap, and event-log = Members(); non-trivial = 3+ user operations',
+        rule='(a) multi-node step harness: 2-3 real Memberlist instances without tickers, the harness plays the network (pool of every claim queued for gossip and of every snapshot entry, delivered in random order with repetition through the real aliveNode/deadNode/mergeState), joins/updates/leaves/reaping/ageing, no failed probes; every step is replayed on the cluster model (delivered claim must be in the model pool; state, effects and claim contents of the acting node compared) and the healthy-cluster conclusions are evaluated on the real nodes; (b) healthy clusters of 3-10 nodes in virtual time: every packet delivered within half the probe timeout (a third of the runs with every packet exactly at the bound), staggered joins, UpdateNode, graceful leaves (the leaver keeps running), user messages, IndirectChecks 0/1/3, TCP pings on/off; a wire tap looks for suspect messages, every node is polled for health score, suspect/dead records, leave events of live members, conflicts, callback overlap, and event-log = Members(); non-trivial = 3+ user operations',
         trusted_base=COMMON_TB + ["testing/synctest virtual time: Go timers, channels and the scheduler inside a bubble; processing time is zero",
                                   "the simulator transport (non-blocking delivery, latency/loss/duplication/partition injection, net.Pipe streams)",
                                   "math/rand target selection is seeded but goroutine scheduling is not fully deterministic: the recorded outcome is the replay artifact"],
@@ -284,10 +284,10 @@ PROPS = {
     ),
     "C05": dict(
         lean_modules=['Swim.Lemmas.Merge', 'Swim.Props.C02', 'Swim.Props.C09', 'Swim.Props.C05', 'Swim.Model.Cluster', 'Swim.Props.Cluster', 'Swim.Props.ClusterG', 'Swim.Props.C02Cluster', 'Swim.Props.C05Cluster', 'Swim.Props.Projection', 'Swim.Props.C04Cluster', 'Swim.Props.C05Recover'],
-        tests="^TestC05$",
+        tests="^TestC05(Cluster)?$",
         timeout_quick=400,
         shards_quick=4,
-        rule='clusters of 3-10 nodes: a fault phase of 10-40 virtual seconds (0-50% loss, duplication, delays to 2 s, up to two partitions of 1-13 s, crashes, leave+shutdown, same-address restarts with a fresh incarnation, metadata updates), then a perfect network; connectivity of the listing graph is evaluated when faults stop and the final state after 10 push/pull intervals + 200 s is classified converged / stable split / not converged (lists a departed member, views differ inside a group, stale metadata, sticking accusation); non-trivial = a history with departures or restarts',
+        rule='(a) multi-node step harness as in C04 but with unanswered probes, suspicion timers firing and accusations circulating; the general cluster invariant (no record above its subject, own address, left only after Leave, alive content) is evaluated on the real nodes after every step; (b) clusters of 3-10 nodes: a fault phase of 10-40 virtual seconds (0-50% loss, duplication, delays to 2 s, up to two partitions of 1-13 s, crashes, leave+shutdown, same-address restarts with a fresh incarnation, metadata updates), then a perfect network; connectivity of the listing graph is evaluated when faults stop and the final state after 10 push/pull intervals + 200 s is classified converged / stable split / not converged (lists a departed member, views differ inside a group, stale metadata, sticking accusation); non-trivial = a history with departures or restarts',
         trusted_base=COMMON_TB + ["testing/synctest virtual time: Go timers, channels and the scheduler inside a bubble; processing time is zero",
                                   "the simulator transport (non-blocking delivery, latency/loss/duplication/partition injection, net.Pipe streams)",
                                   "math/rand target selection is seeded but goroutine scheduling is not fully deterministic: the recorded outcome is the replay artifact"],
